@@ -449,12 +449,18 @@ def gen_step(rng, stream, budget):
     if not budget.take(abs(e) + 0.2):
         return ["rotate", rot.tolist()]
     lin = rot @ np.diag([10.0 ** e * rng.uniform(0.7, 1.3) for _ in range(3)])
+    nearly = rng.random() < 0.3
+    if nearly:
+        # almost a rigid motion, but not one: a rotation times 1 +- 1e-7..1e-4 (per axis, or uniformly); its inverse is
+        # not its transpose, whatever an allclose() says
+        d = 10.0 ** rng.uniform(-7, -4) * rng.choice([-1, 1])
+        lin = rot @ np.diag([1.0 + d * rng.choice([1.0, 1.0, 0.5, 0.0]) for _ in range(2)] + [1.0 + d])
     m = np.eye(4)
     m[:3, :3] = lin
     m[:3, 3] = [rng.uniform(-5, 5) for _ in range(3)]
     inv = np.linalg.inv(m)
     inv[3] = [0.0, 0.0, 0.0, 1.0]
-    return ["append", m.tolist(), inv.tolist() if rng.random() < 0.5 else None]
+    return ["append", m.tolist(), inv.tolist() if rng.random() < (0.2 if nearly else 0.5) else None]
 
 
 def gen_bad_step(rng):
@@ -512,6 +518,29 @@ def gen_history(rng, stream, n, bad_rate=0.0, nonaffine_steps=0):
             steps.append(gen_step(rng, stream, budget))
     for _ in range(nonaffine_steps):
         steps.insert(rng.randint(0, len(steps)), gen_nonaffine_step(rng))
+    # a caller that keeps its vectors: later reorient steps look along the same vector as an earlier one (other `up`), later
+    # translations / rotation vectors repeat an earlier one.  Inside the adapters equal values are then the same object
+    # (INTERN_WITHIN_CASE), so a step that overwrote its argument shows in the steps that follow.
+    if stream != "lattice" and rng.random() < 0.4:
+        seen = {}
+        for i, st in enumerate(steps):
+            k = st[0]
+            if k == "reorient" and any(st[2]):
+                if "look" in seen and rng.random() < 0.7:
+                    look = seen["look"]
+                    for _ in range(20):
+                        up = [rng.uniform(-1, 1) for _ in range(3)]
+                        cu = np.cross(up, look)
+                        if np.linalg.norm(cu) > 0.2 * np.linalg.norm(up) * np.linalg.norm(look):
+                            steps[i] = ["reorient", up, list(look)]
+                            break
+                else:
+                    seen["look"] = list(st[2])
+            elif k in ("translate", "rodrigues"):
+                if k in seen and rng.random() < 0.5:
+                    steps[i] = [k, list(seen[k])]
+                else:
+                    seen[k] = list(st[1])
     return steps
 
 
